@@ -207,6 +207,7 @@ def label_rule(prog, res):
                 continue
             hs = [f.nodes[h] for h in t['handlers']]
             good = False
+            hands_back = False
             for h in hs:
                 if h.get('catch_t') in ('std::invalid_argument', 'std::logic_error', 'std::exception') or h.get('catch_all'):
                     ths = [f.nodes[x] for x in f.descendants(h['body']) if f.nodes[x]['k'] == 'CXXThrowExpr']
@@ -214,7 +215,12 @@ def label_rule(prog, res):
                     last = f.nodes[f.strip(hb['ch'][-1], 'all')] if hb['ch'] else None
                     if ths and all(x.get('throw_t') == 'std::invalid_argument' or x.get('rethrow') for x in ths) and last is not None and last['k'] == 'CXXThrowExpr':
                         good = True
+                    elif not ths and f is not f0 and any(f.nodes[x]['k'] == 'ReturnStmt' and f.nodes[x].get('ch') for x in f.descendants(h['body'])):
+                        hands_back = True     # a checker that reports the reason to its caller: what the caller does with it is decided on the models below
                     break
+            if hands_back:
+                why = 'the look-up failure is handed back to the caller as a value'
+                continue
             if not good:
                 why = 'a missing label does not end in std::invalid_argument'
                 partial = True
